@@ -187,3 +187,42 @@ def validate_traces(ctx, module, traces, tag, cfg=TRACE_CFG, batch_bytes=16 << 2
         ctx.traces += len(b)
         os.remove(path)
     return rejects
+
+
+# ---- parallel replay ---------------------------------------------------------------------------
+_PAR = {}
+
+
+def _par_worker(args):
+    lo, hi = args
+    fn = _PAR["fn"]
+    items = _PAR["items"]
+    return [fn(items[i]) for i in range(lo, hi)]
+
+
+def parallel(fn, items, procs=16, chunk=2000):
+    """[fn(x) for x in items] on forked workers (fn and items are inherited, results are pickled)."""
+    import multiprocessing as mp
+    if len(items) < 2 * chunk:
+        return [fn(x) for x in items]
+    _PAR["fn"] = fn
+    _PAR["items"] = items
+    spans = [(i, min(i + chunk, len(items))) for i in range(0, len(items), chunk)]
+    ctxm = mp.get_context("fork")
+    with ctxm.Pool(procs) as pool:
+        out = []
+        for part in pool.imap(_par_worker, spans):
+            out.extend(part)
+    _PAR.clear()
+    return out
+
+
+def batched(it, n):
+    buf = []
+    for x in it:
+        buf.append(x)
+        if len(buf) >= n:
+            yield buf
+            buf = []
+    if buf:
+        yield buf
